@@ -816,6 +816,11 @@ def check_c13(tier, seed):
                   floors=[("artefact_keys_compared_across_processes", 100), ("min_processes_per_key", 3), ("growth_ratios_checked", 20), ("repeated_executions", 1000), ("distinct_nontrivial", 50)])
 
 
+def main_for(prop, tier):
+    sys.argv = [sys.argv[0], prop, tier]
+    return main()
+
+
 def main():
     if len(sys.argv) < 2:
         print(__doc__)
@@ -869,6 +874,49 @@ def replay(path):
     v = json.load(open(path))
     prop = v.get("property", "?")
     binary = build("dbg" if v.get("stage") == "dbg" else "release")
+    kind = v.get("kind")
+    simple = {
+        "memory_history": lambda: [binary, "c09replay", "--bits", str(v["bits"]), "--hist-seed", str(v["hist_seed"]), "--index", str(v["index"]), "--ops", str(v["ops"]), "--alloc-mode", str(v["alloc_mode"])],
+        "smallvec_history": lambda: [binary, "c18replay", "--n", str(v["n"]), "--tracked", "true" if v["tracked"] else "false", "--hist-seed", str(v["hist_seed"]), "--index", str(v["index"]), "--ops", str(v["ops"])],
+        "bytecode": lambda: [binary, "c11replay", "--code", v["program"], "--bits", str(v["bits"]), "--input-hex", v.get("input_hex", "")],
+        "compile": lambda: [binary, "c13replay", "--code", v.get("program", ""), "--bits", str(v.get("bits", 8))],
+    }
+    if kind in simple:
+        r = subprocess.run(simple[kind]() + ["--replay-path", path], env=ENV)
+        return r.returncode
+    if kind in ("arith", "expr"):
+        # these monitors are deterministic in (seed, shard): re-run the quick check
+        return main_for(prop, "quick")
+    if kind == "cli":
+        hpbf = build_repo_cli()
+        tmp = tempfile.mkdtemp(prefix="c16r_")
+        argv = [a.replace("$TMP", tmp) for a in v["argv"]]
+        # recreate the files named in argv from the pieces (in order)
+        pieces = list(v["pieces"])
+        k = 0
+        i = 0
+        while i < len(argv):
+            if argv[i] in ("-f", "--file") and i + 1 < len(argv):
+                if "does_not_exist" not in argv[i + 1]:
+                    # the k-th code unit that is a file
+                    pass
+                i += 2
+            else:
+                i += 1
+        # simplest faithful replay: write every piece that appears as a bare argument as is, every file piece in order
+        bare = [a for j, a in enumerate(argv) if not a.startswith("-") and (j == 0 or argv[j - 1] not in ("-f", "--file", "--limit"))]
+        filepieces = [p for p in pieces if p not in bare]
+        fi = 0
+        for j, a in enumerate(argv):
+            if j > 0 and argv[j - 1] in ("-f", "--file") and "does_not_exist" not in a:
+                open(a, "w").write(filepieces[fi] if fi < len(filepieces) else "")
+                fi += 1
+        r = subprocess.run(["setarch", "x86_64", "-R", hpbf] + argv, input=bytes.fromhex(v.get("stdin_hex", "")), capture_output=True)
+        print("argv:", argv)
+        print("exit:", r.returncode, "stdout:", r.stdout[:80], "stderr:", r.stderr[:120])
+        print("recorded:", v["why"])
+        print(f"VIOLATION property=C16 replay={path}  (re-run `check.py C16 quick` for the verdict of the current tree)")
+        return 1
     code_file = os.path.join(OUT, "replay_code.tmp")
     os.makedirs(OUT, exist_ok=True)
     with open(code_file, "w") as f:
@@ -879,6 +927,10 @@ def replay(path):
             "--alloc-mode", str(v.get("alloc_mode", 0))]
     if "fault_at" in v:
         argv += ["--fault-at", str(v["fault_at"]), "--fault-err", "true" if v.get("fault_err") else "false"]
+    if "fail_at" in v:
+        argv += ["--fail-at", str(v["fail_at"])]
+    if "window_ms" in v:
+        argv += ["--window-ms", str(v["window_ms"])]
     if not v.get("input_present", True):
         argv += ["--no-input"]
     if not v.get("output_present", True):
